@@ -1,39 +1,57 @@
-(* C05 - model of one front-end's client connections: pomelonet/server/session/session.go
-   (ClientSession: read / write / heartbeat goroutines and the Close latch), the posting of
-   session events through node/client/impls/pomelo/sessionsimpl.go onto the owning service's
-   scheduler, and node/client/impls/sessions.go (ClientSessions) consuming them.
+(* C05 - model of one front-end's client connections: pomelonet/server/acceptor/tcp_acceptor.go
+   (accept loop and its hand-over queue), node/client/impls/pomelo/utils.go (StartAcceptor),
+   pomelonet/server/session/session.go (ClientSession: read / write / heartbeat goroutines, the
+   Close latch, the bounded send queue and whoever pushes into it), the posting of session
+   events through node/client/impls/pomelo/sessionsimpl.go onto the owning service's scheduler,
+   and node/client/impls/sessions.go (ClientSessions) consuming them.
    REPAIRED code is modelled (hooks/C05-fix-read-exit-closes.patch: read() closes on every
    exit; hooks/C05-fix-drop-message-of-removed-session.patch: ProcessMessage drops a message
    whose session is unknown).  No proofs in this file.
 
-   Interleaving semantics.  A state holds any number of connections (keyed by a token),
-   the front's FIFO [q] of posted events, the events already consumed [dn], the front
-   (ClientSessions) and the clock.  [step] executes ONE label:
-     - environment: LConnect (accept: NewClientSession + Handle), LSend (client bytes arrive),
-       LEof (client closes), LWfail (conn.Write starts failing), LTick (clock advances);
-     - LStep c t: thread t in {TR read loop, TW write loop, TH heartbeat} of connection c
-       performs its next atomic step (a stutter when it is blocked or finished);
+   Interleaving semantics.  A state holds any number of connections (keyed by a token), the
+   acceptor pipeline, the front's FIFO [q] of posted events, the events already consumed [dn],
+   the front (ClientSessions), what the owning service is in the middle of ([own]) and the
+   clock.  [step] executes ONE label:
+     - environment: LDial (a client connects to the listener), LGate (the owning service's
+       scheduler queue is full / has room again: OnSessionCreate's Post blocks / returns),
+       LConnect (NewClientSession + Handle on a connection handed over directly), LSend (client
+       bytes arrive), LEof (client closes), LWfail (conn.Write fails from now on), LWstall
+       (conn.Write blocks until the connection is closed: the client stopped reading), LTick;
+     - LStepA / LStepS: the accept loop (Accept ; connChan <- conn, BLOCKING when connChan holds
+       99) and StartAcceptor's loop (<-connChan ; NewClientSession ; Handle);
+     - LStep c t: thread t of connection c performs its next atomic step (a stutter when it is
+       blocked or finished): TR read loop, TW write loop, TH heartbeat, TP a goroutine that
+       calls Push on the session [c_pp] more times (LFlood starts it);
      - external closers: LKick (owning service: ClientSessions.Kick), LCloseExt (any other
-       goroutine calling Close); LPush (owning service: ClientSessions.PushMsg);
-     - LFront: the owning service consumes the head of [q];
+       goroutine calling Close);
+     - the owning service: LPush (ClientSessions.PushMsg: the targets become [own]), LOwner (it
+       pushes to the next target - BLOCKED while that session's queue is full), LFront (it
+       consumes the head of [q]); LFront / LKick / LPush / LSetNext need [own = []]: a service
+       goroutine parked in a push does nothing else;
      - LSetNext: verification hook positioning the id allocator (not production code).
+   chSend is a bounded FIFO of capacity [chcap] = 9999.  A send (push, heartbeat) is ONE step that
+   is enabled iff the queue has room or the latch is set: a sender parked on a full queue is a
+   thread whose step is disabled, and close(chSend) inside Close() is what enables it again
+   (the send panics, recover() turns that into a drop).  The order in which several parked
+   senders are served is left to the schedule.
    Atomicity: one step = one access to shared state (status word, latch under the mutex,
-   chSend, the scheduler queue, the connection) together with the goroutine-local
+   chSend, connChan, the scheduler queue, the connection) together with the goroutine-local
    computation that precedes it.  Close() is ONE step (it runs under the session mutex):
    test-and-set of the latch; iff it flipped: status := Closed, chSend/chanClose closed,
    conn.Close(), OnSessionClose => post ERemove.
    Schedules are [list label]; every theorem quantifies over all of them.
 
    Go -> model:
-     ClientSession.state (atomic int32)        st_status      Start/Handshake/Working/Closed
-     chanClose (closed or not, under mutex)    latch
-     chSend                                    sendq          (never full: capacity 9999 not modelled)
-     lastHeartBeat, common.NowMs()             lasthb, now    ms; limit 2*10*1000
-     conn.GetNextMessage (tcp framing)         inbox/eof      packet CLASSES, see [pkt]
-     sche.Sche channel of the owning service   q              FIFO, several producers
+     ClientSession.state (atomic int32)        c_status       Start/Handshake/Working/Closed
+     chanClose (closed or not, under mutex)    c_latch
+     chSend (cap 9999)                         c_sendq, c_nq  newest first; c_nq = its length
+     lastHeartBeat, common.NowMs()             c_lasthb, now  ms; limit 2*10*1000
+     conn.GetNextMessage (tcp framing)         c_inbox/c_eof  packet CLASSES, see [pkt]
+     TCPAcceptor.connChan (cap 99)             cch            ahand/shand: what the two loops hold
+     sche.Sche channel of the owning service   q              FIFO, several producers; its
+                                                              capacity (999) only through [gate]
      ClientSessions.sessions / idService       live / next    uint32 counter, wraps, skips 0 *)
 From Cell2V Require Import Common.Tac Common.ListX Common.AList.
-
 Inductive status := SStart | SHandshake | SWorking | SClosed.
 
 (* what the client can put on the wire, by the branch of read()/processPacket it reaches *)
@@ -49,31 +67,40 @@ Inductive pkt :=
 | PTruncEof             (* announces more bytes than are sent, then the client closes *)
 | PDecErr.              (* SessionConfig.Decoder.Decode reports an error *)
 
-Inductive rpc := RTop | RRead | RGot (p : pkt) | RClose | RDone.
-Inductive wpc := WLoop | WClose | WDone.
-Inductive hpc := HLoop | HClose | HDone.
-Inductive tid := TR | TW | TH.
 Inductive witem := WHb | WPush.
+Inductive rpc := RTop | RRead | RGot (p : pkt) | RClose | RDone.
+Inductive wpc := WLoop | WWrite (x : witem) | WClose | WDone.
+Inductive hpc := HLoop | HSend | HClose | HDone.
+Inductive tid := TR | TW | TH | TP.
 
 Record conn := mkConn {
   c_status : status;
-  c_latch : bool;          (* chanClose closed *)
+  c_latch : bool;
   c_lasthb : Z;
-  c_rp : rpc; c_wp : wpc; c_hp : hpc;
-  c_sendq : list witem;    (* chSend *)
-  c_inbox : list pkt;      (* bytes sent by the client, not yet read *)
-  c_eof : bool;            (* client closed its end *)
-  c_wfail : bool;          (* conn.Write fails *)
-  (* ghost / observable counters *)
-  c_cause : bool;          (* an end cause has been signalled for this connection *)
-  c_ncb : Z;               (* OnSessionClose callbacks = conn.Close() calls *)
-  c_npush : Z;             (* Push calls issued by the front *)
-  c_nsent : Z;             (* push packets written to the client *)
-  c_arrived : list Z       (* data messages in the order the client sent them *)
+  c_rp : rpc;
+  c_wp : wpc;
+  c_hp : hpc;
+  c_sendq : list witem;
+  c_nq : Z;
+  c_inbox : list pkt;
+  c_eof : bool;
+  c_wfail : bool;
+  c_wstall : bool;
+  c_pp : Z;
+  c_cause : bool;
+  c_ncb : Z;
+  c_npush : Z;
+  c_nsent : Z;
+  c_arrived : list Z
 }.
 
+(* c_sendq: chSend, newest first.  c_wstall: conn.Write blocks until closed.  c_pp: pushes the
+   flood goroutine still has to issue.  Ghost / observable counters: c_cause (an end cause has
+   been signalled), c_ncb (OnSessionClose callbacks = conn.Close() calls), c_npush (Push calls
+   that RETURNED), c_nsent (push packets written to the client), c_arrived (data messages in the
+   order the client sent them). *)
 Definition conn0 : conn :=
-  mkConn SStart false 0 RTop WLoop HLoop [] [] false false false 0 0 0 [].
+  mkConn SStart false 0 RTop WLoop HLoop [] 0 [] false false false 0 false 0 0 0 [].
 
 Inductive ev := EAdd (c : Z) | EMsg (c m : Z) | ERemove (c : Z).
 
@@ -97,16 +124,26 @@ Record front := mkFront {
 Record st := mkSt {
   conns : alist conn;
   q : list ev;
-  dn : list ev;                (* consumed events, oldest first *)
+  dn : list ev;
   fr : front;
-  now : Z
+  now : Z;
+  own : list Z;
+  backlog : list Z;
+  ahand : option Z;
+  cch : list Z;
+  shand : option Z;
+  gate : bool;
+  dialed : list Z
 }.
 
 Definition two32 := 4294967296.
 Definition hb_limit := 20000.       (* 2 * DefaultHeartbeatTimeSeconds * 1000 *)
+Definition chcap := 9999.           (* make(chan *pendingWrite, 9999) *)
+Definition cchcap := 99%nat.        (* make(chan PlayerConn, 99) *)
 
 Definition front0 (next0 : Z) : front := mkFront next0 [] [] [] [] false.
-Definition init_with (next0 : Z) : st := mkSt [] [] [] (front0 next0) 1000000.
+Definition init_with (next0 : Z) : st :=
+  mkSt [] [] [] (front0 next0) 1000000 [] [] None [] None false [].
 Definition init : st := init_with 1.        (* NewSerialIdService: nextId = 1 *)
 
 (* SerialIdService.AllocId: atomic add; 0 is skipped *)
@@ -114,67 +151,89 @@ Definition alloc (n : Z) : Z :=
   let v := (n + 1) mod two32 in if Z.eqb v 0 then 1 else v.
 
 Inductive label :=
+| LDial (c : Z)
+| LGate (b : bool)
+| LStepA
+| LStepS
 | LConnect (c : Z)
 | LSend (c : Z) (p : pkt)
 | LEof (c : Z)
 | LWfail (c : Z)
+| LWstall (c : Z)
 | LTick (d : Z)
 | LStep (c : Z) (t : tid)
+| LFlood (c n : Z)
 | LKick (c : Z)
 | LCloseExt (c : Z)
 | LPush (cs : list Z)
+| LOwner
 | LFront
 | LSetNext (v : Z).
 
 (* ---- record updates ---- *)
-Definition set_conn (c : Z) (k : conn) (s : st) : st :=
-  mkSt (aset c k (conns s)) (q s) (dn s) (fr s) (now s).
-Definition post (e : ev) (s : st) : st :=
-  mkSt (conns s) (q s ++ [e]) (dn s) (fr s) (now s).
+Definition s_conns (x : alist conn) (s : st) : st :=
+  mkSt x (q s) (dn s) (fr s) (now s) (own s) (backlog s) (ahand s) (cch s) (shand s) (gate s) (dialed s).
+Definition s_q (x : list ev) (s : st) : st :=
+  mkSt (conns s) x (dn s) (fr s) (now s) (own s) (backlog s) (ahand s) (cch s) (shand s) (gate s) (dialed s).
+Definition s_fr (x : front) (s : st) : st :=
+  mkSt (conns s) (q s) (dn s) x (now s) (own s) (backlog s) (ahand s) (cch s) (shand s) (gate s) (dialed s).
+Definition s_now (x : Z) (s : st) : st :=
+  mkSt (conns s) (q s) (dn s) (fr s) x (own s) (backlog s) (ahand s) (cch s) (shand s) (gate s) (dialed s).
+Definition s_own (x : list Z) (s : st) : st :=
+  mkSt (conns s) (q s) (dn s) (fr s) (now s) x (backlog s) (ahand s) (cch s) (shand s) (gate s) (dialed s).
+Definition s_backlog (x : list Z) (s : st) : st :=
+  mkSt (conns s) (q s) (dn s) (fr s) (now s) (own s) x (ahand s) (cch s) (shand s) (gate s) (dialed s).
+Definition s_ahand (x : option Z) (s : st) : st :=
+  mkSt (conns s) (q s) (dn s) (fr s) (now s) (own s) (backlog s) x (cch s) (shand s) (gate s) (dialed s).
+Definition s_cch (x : list Z) (s : st) : st :=
+  mkSt (conns s) (q s) (dn s) (fr s) (now s) (own s) (backlog s) (ahand s) x (shand s) (gate s) (dialed s).
+Definition s_shand (x : option Z) (s : st) : st :=
+  mkSt (conns s) (q s) (dn s) (fr s) (now s) (own s) (backlog s) (ahand s) (cch s) x (gate s) (dialed s).
+Definition s_gate (x : bool) (s : st) : st :=
+  mkSt (conns s) (q s) (dn s) (fr s) (now s) (own s) (backlog s) (ahand s) (cch s) (shand s) x (dialed s).
+Definition s_dialed (x : list Z) (s : st) : st :=
+  mkSt (conns s) (q s) (dn s) (fr s) (now s) (own s) (backlog s) (ahand s) (cch s) (shand s) (gate s) x.
+Definition set_conn (c : Z) (k : conn) (s : st) : st := s_conns (aset c k (conns s)) s.
+Definition post (e : ev) (s : st) : st := s_q (q s ++ [e]) s.
+Definition set_front (f : front) (s : st) : st := s_fr f s.
 
 Definition k_status (x : status) (k : conn) : conn :=
-  mkConn x (c_latch k) (c_lasthb k) (c_rp k) (c_wp k) (c_hp k) (c_sendq k) (c_inbox k)
-         (c_eof k) (c_wfail k) (c_cause k) (c_ncb k) (c_npush k) (c_nsent k) (c_arrived k).
+  mkConn x (c_latch k) (c_lasthb k) (c_rp k) (c_wp k) (c_hp k) (c_sendq k) (c_nq k) (c_inbox k) (c_eof k) (c_wfail k) (c_wstall k) (c_pp k) (c_cause k) (c_ncb k) (c_npush k) (c_nsent k) (c_arrived k).
 Definition k_lasthb (x : Z) (k : conn) : conn :=
-  mkConn (c_status k) (c_latch k) x (c_rp k) (c_wp k) (c_hp k) (c_sendq k) (c_inbox k)
-         (c_eof k) (c_wfail k) (c_cause k) (c_ncb k) (c_npush k) (c_nsent k) (c_arrived k).
+  mkConn (c_status k) (c_latch k) x (c_rp k) (c_wp k) (c_hp k) (c_sendq k) (c_nq k) (c_inbox k) (c_eof k) (c_wfail k) (c_wstall k) (c_pp k) (c_cause k) (c_ncb k) (c_npush k) (c_nsent k) (c_arrived k).
 Definition k_rp (x : rpc) (k : conn) : conn :=
-  mkConn (c_status k) (c_latch k) (c_lasthb k) x (c_wp k) (c_hp k) (c_sendq k) (c_inbox k)
-         (c_eof k) (c_wfail k) (c_cause k) (c_ncb k) (c_npush k) (c_nsent k) (c_arrived k).
+  mkConn (c_status k) (c_latch k) (c_lasthb k) x (c_wp k) (c_hp k) (c_sendq k) (c_nq k) (c_inbox k) (c_eof k) (c_wfail k) (c_wstall k) (c_pp k) (c_cause k) (c_ncb k) (c_npush k) (c_nsent k) (c_arrived k).
 Definition k_wp (x : wpc) (k : conn) : conn :=
-  mkConn (c_status k) (c_latch k) (c_lasthb k) (c_rp k) x (c_hp k) (c_sendq k) (c_inbox k)
-         (c_eof k) (c_wfail k) (c_cause k) (c_ncb k) (c_npush k) (c_nsent k) (c_arrived k).
+  mkConn (c_status k) (c_latch k) (c_lasthb k) (c_rp k) x (c_hp k) (c_sendq k) (c_nq k) (c_inbox k) (c_eof k) (c_wfail k) (c_wstall k) (c_pp k) (c_cause k) (c_ncb k) (c_npush k) (c_nsent k) (c_arrived k).
 Definition k_hp (x : hpc) (k : conn) : conn :=
-  mkConn (c_status k) (c_latch k) (c_lasthb k) (c_rp k) (c_wp k) x (c_sendq k) (c_inbox k)
-         (c_eof k) (c_wfail k) (c_cause k) (c_ncb k) (c_npush k) (c_nsent k) (c_arrived k).
-Definition k_sendq (x : list witem) (k : conn) : conn :=
-  mkConn (c_status k) (c_latch k) (c_lasthb k) (c_rp k) (c_wp k) (c_hp k) x (c_inbox k)
-         (c_eof k) (c_wfail k) (c_cause k) (c_ncb k) (c_npush k) (c_nsent k) (c_arrived k).
+  mkConn (c_status k) (c_latch k) (c_lasthb k) (c_rp k) (c_wp k) x (c_sendq k) (c_nq k) (c_inbox k) (c_eof k) (c_wfail k) (c_wstall k) (c_pp k) (c_cause k) (c_ncb k) (c_npush k) (c_nsent k) (c_arrived k).
 Definition k_inbox (x : list pkt) (k : conn) : conn :=
-  mkConn (c_status k) (c_latch k) (c_lasthb k) (c_rp k) (c_wp k) (c_hp k) (c_sendq k) x
-         (c_eof k) (c_wfail k) (c_cause k) (c_ncb k) (c_npush k) (c_nsent k) (c_arrived k).
-Definition k_eof (k : conn) : conn :=
-  mkConn (c_status k) (c_latch k) (c_lasthb k) (c_rp k) (c_wp k) (c_hp k) (c_sendq k) (c_inbox k)
-         true (c_wfail k) (c_cause k) (c_ncb k) (c_npush k) (c_nsent k) (c_arrived k).
-Definition k_wfail (k : conn) : conn :=
-  mkConn (c_status k) (c_latch k) (c_lasthb k) (c_rp k) (c_wp k) (c_hp k) (c_sendq k) (c_inbox k)
-         (c_eof k) true (c_cause k) (c_ncb k) (c_npush k) (c_nsent k) (c_arrived k).
-Definition k_cause (k : conn) : conn :=
-  mkConn (c_status k) (c_latch k) (c_lasthb k) (c_rp k) (c_wp k) (c_hp k) (c_sendq k) (c_inbox k)
-         (c_eof k) (c_wfail k) true (c_ncb k) (c_npush k) (c_nsent k) (c_arrived k).
-Definition k_npush (k : conn) : conn :=
-  mkConn (c_status k) (c_latch k) (c_lasthb k) (c_rp k) (c_wp k) (c_hp k) (c_sendq k) (c_inbox k)
-         (c_eof k) (c_wfail k) (c_cause k) (c_ncb k) (c_npush k + 1) (c_nsent k) (c_arrived k).
-Definition k_nsent (k : conn) : conn :=
-  mkConn (c_status k) (c_latch k) (c_lasthb k) (c_rp k) (c_wp k) (c_hp k) (c_sendq k) (c_inbox k)
-         (c_eof k) (c_wfail k) (c_cause k) (c_ncb k) (c_npush k) (c_nsent k + 1) (c_arrived k).
+  mkConn (c_status k) (c_latch k) (c_lasthb k) (c_rp k) (c_wp k) (c_hp k) (c_sendq k) (c_nq k) x (c_eof k) (c_wfail k) (c_wstall k) (c_pp k) (c_cause k) (c_ncb k) (c_npush k) (c_nsent k) (c_arrived k).
+Definition k_pp (x : Z) (k : conn) : conn :=
+  mkConn (c_status k) (c_latch k) (c_lasthb k) (c_rp k) (c_wp k) (c_hp k) (c_sendq k) (c_nq k) (c_inbox k) (c_eof k) (c_wfail k) (c_wstall k) x (c_cause k) (c_ncb k) (c_npush k) (c_nsent k) (c_arrived k).
 Definition k_arrived (x : list Z) (k : conn) : conn :=
-  mkConn (c_status k) (c_latch k) (c_lasthb k) (c_rp k) (c_wp k) (c_hp k) (c_sendq k) (c_inbox k)
-         (c_eof k) (c_wfail k) (c_cause k) (c_ncb k) (c_npush k) (c_nsent k) x.
+  mkConn (c_status k) (c_latch k) (c_lasthb k) (c_rp k) (c_wp k) (c_hp k) (c_sendq k) (c_nq k) (c_inbox k) (c_eof k) (c_wfail k) (c_wstall k) (c_pp k) (c_cause k) (c_ncb k) (c_npush k) (c_nsent k) x.
+Definition k_eof (k : conn) : conn :=
+  mkConn (c_status k) (c_latch k) (c_lasthb k) (c_rp k) (c_wp k) (c_hp k) (c_sendq k) (c_nq k) (c_inbox k) true (c_wfail k) (c_wstall k) (c_pp k) (c_cause k) (c_ncb k) (c_npush k) (c_nsent k) (c_arrived k).
+Definition k_wfail (k : conn) : conn :=
+  mkConn (c_status k) (c_latch k) (c_lasthb k) (c_rp k) (c_wp k) (c_hp k) (c_sendq k) (c_nq k) (c_inbox k) (c_eof k) true (c_wstall k) (c_pp k) (c_cause k) (c_ncb k) (c_npush k) (c_nsent k) (c_arrived k).
+Definition k_wstall (k : conn) : conn :=
+  mkConn (c_status k) (c_latch k) (c_lasthb k) (c_rp k) (c_wp k) (c_hp k) (c_sendq k) (c_nq k) (c_inbox k) (c_eof k) (c_wfail k) true (c_pp k) (c_cause k) (c_ncb k) (c_npush k) (c_nsent k) (c_arrived k).
+Definition k_cause (k : conn) : conn :=
+  mkConn (c_status k) (c_latch k) (c_lasthb k) (c_rp k) (c_wp k) (c_hp k) (c_sendq k) (c_nq k) (c_inbox k) (c_eof k) (c_wfail k) (c_wstall k) (c_pp k) true (c_ncb k) (c_npush k) (c_nsent k) (c_arrived k).
+Definition k_npush (k : conn) : conn :=
+  mkConn (c_status k) (c_latch k) (c_lasthb k) (c_rp k) (c_wp k) (c_hp k) (c_sendq k) (c_nq k) (c_inbox k) (c_eof k) (c_wfail k) (c_wstall k) (c_pp k) (c_cause k) (c_ncb k) (c_npush k + 1) (c_nsent k) (c_arrived k).
+Definition k_nsent (k : conn) : conn :=
+  mkConn (c_status k) (c_latch k) (c_lasthb k) (c_rp k) (c_wp k) (c_hp k) (c_sendq k) (c_nq k) (c_inbox k) (c_eof k) (c_wfail k) (c_wstall k) (c_pp k) (c_cause k) (c_ncb k) (c_npush k) (c_nsent k + 1) (c_arrived k).
+(* chSend <- x *)
+Definition k_enq (x : witem) (k : conn) : conn :=
+  mkConn (c_status k) (c_latch k) (c_lasthb k) (c_rp k) (c_wp k) (c_hp k) (x :: c_sendq k) (c_nq k + 1) (c_inbox k) (c_eof k) (c_wfail k) (c_wstall k) (c_pp k) (c_cause k) (c_ncb k) (c_npush k) (c_nsent k) (c_arrived k).
+(* <-chSend leaves r *)
+Definition k_deq (r : list witem) (k : conn) : conn :=
+  mkConn (c_status k) (c_latch k) (c_lasthb k) (c_rp k) (c_wp k) (c_hp k) r (c_nq k - 1) (c_inbox k) (c_eof k) (c_wfail k) (c_wstall k) (c_pp k) (c_cause k) (c_ncb k) (c_npush k) (c_nsent k) (c_arrived k).
 (* the effect of a Close() that flips the latch, on the connection record *)
 Definition k_closed (k : conn) : conn :=
-  mkConn SClosed true (c_lasthb k) (c_rp k) (c_wp k) (c_hp k) (c_sendq k) (c_inbox k)
-         (c_eof k) (c_wfail k) (c_cause k) (c_ncb k + 1) (c_npush k) (c_nsent k) (c_arrived k).
+  mkConn SClosed true (c_lasthb k) (c_rp k) (c_wp k) (c_hp k) (c_sendq k) (c_nq k) (c_inbox k) (c_eof k) (c_wfail k) (c_wstall k) (c_pp k) (c_cause k) (c_ncb k + 1) (c_npush k) (c_nsent k) (c_arrived k).
 
 (* ClientSession.Close(): the ONLY place that posts ERemove *)
 Definition do_close (c : Z) (s : st) : st :=
@@ -185,6 +244,9 @@ Definition do_close (c : Z) (s : st) : st :=
 
 Definition below_working (x : status) : bool :=
   match x with SStart | SHandshake => true | _ => false end.
+
+(* a send on chSend does not block: the queue has room, or it has been closed *)
+Definition can_send (k : conn) : bool := c_latch k || Z.ltb (c_nq k) chcap.
 
 (* ---- the read loop ---- *)
 Definition step_R (c : Z) (k : conn) (s : st) : st :=
@@ -227,17 +289,27 @@ Definition step_R (c : Z) (k : conn) (s : st) : st :=
   | RDone => s
   end.
 
-(* ---- the write loop ---- *)
+(* the oldest element of chSend and what stays behind *)
+Definition deq (l : list witem) : option (witem * list witem) :=
+  match rev l with
+  | x :: r => Some (x, rev r)
+  | [] => None
+  end.
+
+(* ---- the write loop: select { <-chanClose ; <-chSend } ; conn.Write ---- *)
 Definition step_W (c : Z) (k : conn) (s : st) : st :=
   match c_wp k with
   | WLoop =>
       if c_latch k then set_conn c (k_wp WClose k) s
-      else match c_sendq k with
-           | x :: r =>
-               if c_wfail k then set_conn c (k_cause (k_wp WClose (k_sendq r k))) s
-               else set_conn c (match x with WPush => k_nsent (k_sendq r k) | WHb => k_sendq r k end) s
-           | [] => s
+      else match deq (c_sendq k) with
+           | Some (x, r) => set_conn c (k_wp (WWrite x) (k_deq r k)) s
+           | None => s
            end
+  | WWrite x =>                  (* conn.Write(pWrite.data) *)
+      if c_latch k then set_conn c (k_wp WClose k) s           (* closed under us: write error *)
+      else if c_wfail k then set_conn c (k_cause (k_wp WClose k)) s
+      else if c_wstall k then s                                 (* the client does not read *)
+      else set_conn c (match x with WPush => k_nsent (k_wp WLoop k) | WHb => k_wp WLoop k end) s
   | WClose =>
       match aget c (conns (do_close c s)) with
       | Some k' => set_conn c (k_wp WDone k') (do_close c s)
@@ -254,10 +326,14 @@ Definition step_H (c : Z) (k : conn) (s : st) : st :=
       else match c_status k with
            | SWorking =>
                if Z.ltb (now s) (c_lasthb k + hb_limit)
-               then set_conn c (k_sendq (c_sendq k ++ [WHb]) k) s
+               then set_conn c (k_hp HSend k) s
                else set_conn c (k_cause (k_hp HClose k)) s
            | _ => s
            end
+  | HSend =>                     (* pushToSend(heartbeat): may park on a full queue *)
+      if c_latch k then set_conn c (k_hp HLoop k) s            (* closed queue: recovered *)
+      else if Z.ltb (c_nq k) chcap then set_conn c (k_hp HLoop (k_enq WHb k)) s
+      else s
   | HClose =>
       match aget c (conns (do_close c s)) with
       | Some k' => set_conn c (k_hp HLoop k') (do_close c s)
@@ -265,6 +341,24 @@ Definition step_H (c : Z) (k : conn) (s : st) : st :=
       end
   | HDone => s
   end.
+
+(* ClientSession.Push: status check, then pushToSend.  None = the caller is parked. *)
+Definition push_k (k : conn) : option conn :=
+  match c_status k with
+  | SClosed => Some (k_npush k)                               (* errors.New("closed") *)
+  | _ => if c_latch k then Some (k_npush k)                   (* closed queue: recovered *)
+         else if Z.ltb (c_nq k) chcap then Some (k_npush (k_enq WPush k))
+         else None
+  end.
+
+(* ---- a goroutine that pushes c_pp times ---- *)
+Definition step_P (c : Z) (k : conn) (s : st) : st :=
+  if Z.ltb 0 (c_pp k) then
+    match push_k k with
+    | Some k' => set_conn c (k_pp (c_pp k - 1) k') s
+    | None => s
+    end
+  else s.
 
 (* ---- the front: ClientSessions on the owning service ---- *)
 Definition netid_of (f : front) (c : Z) : Z :=
@@ -294,37 +388,71 @@ Definition front_ev (f : front) (e : ev) : front :=
       end
   end.
 
-Definition set_front (f : front) (s : st) : st := mkSt (conns s) (q s) (dn s) f (now s).
+(* the owning service consumes the head of its queue *)
+Definition consume (e : ev) (r : list ev) (s : st) : st :=
+  mkSt (conns s) r (dn s ++ [e]) (front_ev (fr s) e) (now s) (own s)
+       (backlog s) (ahand s) (cch s) (shand s) (gate s) (dialed s).
 
-(* ClientSession.Push as called by PushMsg for a live session *)
-Definition push_conn (c : Z) (s : st) : st :=
-  match aget c (conns s) with
-  | None => s
-  | Some k =>
-      let k1 := k_npush k in
-      match c_status k with
-      | SClosed => set_conn c k1 s                        (* errors.New("closed") *)
-      | _ => if c_latch k then set_conn c k1 s            (* send on closed chSend: recovered *)
-             else set_conn c (k_sendq (c_sendq k ++ [WPush]) k1) s
+(* the session PushMsg finds for a listed target, if any *)
+Definition target_of (s : st) (c : Z) : option Z :=
+  match aget c (f_netid (fr s)) with
+  | None => None
+  | Some id => aget id (f_live (fr s))                       (* None: onSessionMissed *)
+  end.
+
+(* the owning service pushes to the next target of the PushMsg it is executing *)
+Definition step_owner (s : st) : st :=
+  match own s with
+  | [] => s
+  | c :: rest =>
+      match target_of s c with
+      | None => s_own rest s
+      | Some c' =>
+          match aget c' (conns s) with
+          | None => s_own rest s
+          | Some k => match push_k k with
+                      | Some k' => s_own rest (set_conn c' k' s)
+                      | None => s                            (* parked in session.Push *)
+                      end
+          end
       end
   end.
 
-Definition push_one (s : st) (c : Z) : st :=
-  match aget c (f_netid (fr s)) with
-  | None => s
-  | Some id => match aget id (f_live (fr s)) with
-               | Some c' => push_conn c' s
-               | None => s                                (* onSessionMissed *)
-               end
+(* NewClientSession + Handle: OnSessionCreate posts the Add, the three loops start *)
+Definition connect (c : Z) (s : st) : st :=
+  match aget c (conns s) with
+  | Some _ => s
+  | None => post (EAdd c) (set_conn c conn0 s)
   end.
+
+Definition known (s : st) (c : Z) : bool :=
+  zmem c (dialed s) || match aget c (conns s) with Some _ => true | None => false end.
 
 Definition step (s : st) (l : label) : st :=
   match l with
-  | LConnect c =>
-      match aget c (conns s) with
-      | Some _ => s
-      | None => post (EAdd c) (set_conn c conn0 s)
+  | LDial c =>                   (* the kernel completes the TCP handshake: listener backlog *)
+      if known s c then s else s_dialed (dialed s ++ [c]) (s_backlog (backlog s ++ [c]) s)
+  | LGate b => s_gate b s
+  | LStepA =>                    (* TCPAcceptor.serve: Accept ; a.connChan <- conn *)
+      match ahand s with
+      | None => match backlog s with
+                | c :: r => s_ahand (Some c) (s_backlog r s)
+                | [] => s
+                end
+      | Some c => if Nat.ltb (length (cch s)) cchcap
+                  then s_ahand None (s_cch (cch s ++ [c]) s)
+                  else s                                      (* connChan full: the loop waits *)
       end
+  | LStepS =>                    (* StartAcceptor: for conn := range connChan { New.. ; Handle } *)
+      match shand s with
+      | None => match cch s with
+                | c :: r => s_shand (Some c) (s_cch r s)
+                | [] => s
+                end
+      | Some c => if gate s then s                           (* OnSessionCreate: Post blocks *)
+                  else s_shand None (connect c s)
+      end
+  | LConnect c => if zmem c (dialed s) then s else connect c s   (* dialled tokens come through the acceptor *)
   | LSend c p =>
       match aget c (conns s) with
       | Some k =>
@@ -346,45 +474,67 @@ Definition step (s : st) (l : label) : st :=
       | Some k => set_conn c (k_wfail k) s
       | None => s
       end
-  | LTick d => mkSt (conns s) (q s) (dn s) (fr s) (now s + Z.max 0 d)
+  | LWstall c =>
+      match aget c (conns s) with
+      | Some k => set_conn c (k_wstall k) s
+      | None => s
+      end
+  | LTick d => s_now (now s + Z.max 0 d) s
   | LStep c t =>
       match aget c (conns s) with
-      | Some k => match t with TR => step_R c k s | TW => step_W c k s | TH => step_H c k s end
+      | Some k => match t with
+                  | TR => step_R c k s | TW => step_W c k s | TH => step_H c k s | TP => step_P c k s
+                  end
+      | None => s
+      end
+  | LFlood c n =>
+      match aget c (conns s) with
+      | Some k => if Z.eqb (c_pp k) 0 then set_conn c (k_pp (Z.max 0 n) k) s else s
       | None => s
       end
   | LKick c =>
-      match aget c (f_netid (fr s)) with
-      | Some id => match aget id (f_live (fr s)) with
-                   | Some c' => match aget c' (conns s) with
-                                | Some k' => do_close c' (set_conn c' (k_cause k') s)
-                                | None => s
-                                end
-                   | None => s
-                   end
-      | None => s
+      match own s with
+      | _ :: _ => s
+      | [] =>
+          match target_of s c with
+          | Some c' => match aget c' (conns s) with
+                       | Some k' => do_close c' (set_conn c' (k_cause k') s)
+                       | None => s
+                       end
+          | None => s
+          end
       end
   | LCloseExt c =>
       match aget c (conns s) with
       | Some k => do_close c (set_conn c (k_cause k) s)
       | None => s
       end
-  | LPush cs => fold_left push_one cs s
+  | LPush cs => match own s with [] => s_own cs s | _ :: _ => s end
+  | LOwner => step_owner s
   | LFront =>
-      match q s with
-      | e :: r => mkSt (conns s) r (dn s ++ [e]) (front_ev (fr s) e) (now s)
-      | [] => s
+      match own s with
+      | _ :: _ => s
+      | [] => match q s with
+              | e :: r => consume e r s
+              | [] => s
+              end
       end
-  | LSetNext v => set_front (mkFront (v mod two32) (f_live (fr s)) (f_netid (fr s)) (f_hlog (fr s))
-                                     (f_used (fr s)) (f_reused (fr s))) s
+  | LSetNext v =>
+      match own s with
+      | _ :: _ => s
+      | [] => set_front (mkFront (v mod two32) (f_live (fr s)) (f_netid (fr s)) (f_hlog (fr s))
+                                 (f_used (fr s)) (f_reused (fr s))) s
+      end
   end.
 
 Definition run_from (s : st) (tr : list label) : st := fold_left step tr s.
 Definition run (tr : list label) : st := run_from init tr.
 
 (* ------------------------------------------------------------------------------------
-   Harness operations: each is a particular schedule.  The harness cannot hold the write
-   and heartbeat goroutines, and holds the reader only inside Decoder.Decode, so after
-   every operation the free-running threads run until they block ([settle]). *)
+   Harness operations: each is a particular schedule.  The harness cannot hold the write,
+   heartbeat, pusher, acceptor and service-side goroutines, and holds a reader only inside
+   Decoder.Decode, so after every operation the free-running threads run until they block
+   ([settle]). *)
 Inductive op :=
 | OConnect (c : Z)
 | OSend (c : Z) (p : pkt)
@@ -395,37 +545,64 @@ Inductive op :=
 | OTick (d : Z)
 | OHeartbeat (c : Z)            (* one heartbeat tick of c *)
 | OWfail (c : Z)
+| OWstall (c : Z)               (* the client stops reading: Write blocks *)
+| OFlood (c n : Z)              (* a goroutine issues n pushes to c, one after the other *)
 | OPush (cs : list Z)
 | OFront
 | ODrain
 | OSetNext (v : Z)
+| OGate (b : bool)              (* OnSessionCreate blocks (service queue full) / goes on *)
+| ODial (c : Z)                 (* a TCP client connects to the real acceptor *)
 | ORace (l : list op)           (* the listed simple operations issued concurrently *)
 | ORaceRel (c : Z) (l : list op) (* ... concurrently with releasing c's parked reader *)
 | ORealTicker (k : Z)           (* scripted scenario run with the REAL heartbeat ticker, see rt_script *)
-| OTcp (v k : Z).               (* scripted scenario over a REAL TCP socket and acceptor, see tcp_script *)
+| OTcp (v k : Z)                (* scripted scenario over a REAL TCP socket and acceptor, see tcp_script *)
+| OBurst (n : Z).               (* n simultaneous TCP clients while the service is busy, see burst_script *)
 
 (* labels a free-running connection takes next (none when parked / blocked) *)
 Definition free_labels (c : Z) (k : conn) : list label :=
   (match c_rp k with RGot _ | RDone => [] | _ => [LStep c TR] end)
-  ++ [LStep c TW].
+  ++ [LStep c TW]
+  ++ (if Z.ltb 0 (c_pp k) then [LStep c TP] else []).
 
-Definition settle_round (s : st) : st :=
-  fold_left (fun s ck => fold_left step (free_labels (fst ck) (snd ck)) s) (conns s) s.
+Definition conn_fuel (k : conn) : nat :=
+  (8 + (if c_wstall k then 0 else Z.to_nat (c_nq k))
+     + (if can_send k then Z.to_nat (c_pp k) else 0))%nat.
 
-Fixpoint settle_n (n : nat) (s : st) : st :=
-  match n with O => s | S n' => settle_n n' (settle_round s) end.
+Fixpoint settle_conn_n (n : nat) (c : Z) (s : st) : st :=
+  match n with
+  | O => s
+  | S n' => match aget c (conns s) with
+            | Some k => settle_conn_n n' c (fold_left step (free_labels c k) s)
+            | None => s
+            end
+  end.
 
-(* H only reacts to the latch while the harness is not ticking it *)
-Definition settle_H (s : st) : st :=
-  fold_left (fun s ck => if c_latch (snd ck) then step s (LStep (fst ck) TH) else s) (conns s) s.
+(* the heartbeat goroutine only reacts to the latch while the harness is not ticking it *)
+Definition settle_H (c : Z) (s : st) : st :=
+  match aget c (conns s) with
+  | Some k => if c_latch k then step (step s (LStep c TH)) (LStep c TH) else s
+  | None => s
+  end.
 
-Definition sendq_total (s : st) : nat :=
-  fold_left (fun n ck => (n + length (c_sendq (snd ck)))%nat) (conns s) 0%nat.
+Definition settle_one (c : Z) (s : st) : st :=
+  match aget c (conns s) with
+  | Some k => settle_H c (settle_conn_n (conn_fuel k) c s)
+  | None => s
+  end.
 
-Definition settle (s : st) : st :=
-  let s1 := settle_n (8 + sendq_total s) s in
-  let s2 := settle_H s1 in
-  settle_n 4 s2.
+Fixpoint iter_label (n : nat) (l : label) (s : st) : st :=
+  match n with O => s | S n' => iter_label n' l (step s l) end.
+
+(* accept loop and StartAcceptor loop run until they block; then the owning service goes on
+   with the PushMsg it is in; then every connection *)
+Definition settle_pass (s : st) : st :=
+  let na := (2 * (length (backlog s) + length (cch s)) + 4)%nat in
+  let s1 := iter_label na LStepS (iter_label na LStepA (iter_label na LStepS (iter_label na LStepA s))) in
+  let s2 := iter_label (length (own s1)) LOwner s1 in
+  fold_left (fun s ck => settle_one (fst ck) s) (conns s2) s2.
+
+Definition settle_all (s : st) : st := settle_pass (settle_pass (settle_pass s)).
 
 Definition hp_of (s : st) (c : Z) : hpc :=
   match aget c (conns s) with Some k => c_hp k | None => HDone end.
@@ -446,30 +623,49 @@ Definition exec_simple (s : st) (o : op) : st :=
       | Some k =>
           if c_latch k then s
           else let s1 := step s (LStep c TH) in
-               match hp_of s1 c with HClose => step s1 (LStep c TH) | _ => s1 end
+               match hp_of s1 c with
+               | HClose | HSend => step s1 (LStep c TH)
+               | _ => s1
+               end
       | None => s
       end
   | OWfail c => step s (LWfail c)
+  | OWstall c => step s (LWstall c)
   | _ => s
   end.
 
 Fixpoint drain (n : nat) (s : st) : st :=
   match n with O => s | S n' => match q s with [] => s | _ => drain n' (step s LFront) end end.
 
+(* operations on one connection disturb nobody else unless the owning service is (or gets) in
+   the middle of a PushMsg *)
+Definition settle_after (c : Z) (s0 s1 : st) : st :=
+  match own s0, own s1 with
+  | [], [] => settle_one c s1
+  | _, _ => settle_all s1
+  end.
+
 Definition exec_op1 (s : st) (o : op) : st :=
-  settle
-    (match o with
-     | OConnect c => step s (LConnect c)
-     | OSend c p => step s (LSend c p)
-     | OTick d => step s (LTick d)
-     | OPush cs => step s (LPush cs)
-     | OFront => step s LFront
-     | ODrain => drain (length (q s)) s
-     | OSetNext v => step s (LSetNext v)
-     | ORace l => fold_left exec_simple l s
-     | ORaceRel c l => fold_left exec_simple (ORelease c :: l) s
-     | _ => exec_simple s o
-     end).
+  match o with
+  | OConnect c => settle_after c s (step s (LConnect c))
+  | OSend c p => settle_after c s (step s (LSend c p))
+  | ORelease c | OClientClose c | OCloseExt c | OHeartbeat c | OWfail c | OWstall c =>
+      settle_after c s (exec_simple s o)
+  | OFlood c n => settle_after c s (step s (LFlood c n))
+  | OKick c => settle_all (exec_simple s o)
+  | OTick d => step s (LTick d)
+  | OPush cs => settle_all (step s (LPush cs))
+  | OFront => step s LFront
+  | ODrain => drain (length (q s)) s
+  | OSetNext v => step s (LSetNext v)
+  | OGate b => settle_all (step s (LGate b))
+  | ODial c => settle_all (step s (LDial c))
+  | ORace l => settle_all (fold_left exec_simple l s)
+  | ORaceRel c l => settle_all (fold_left exec_simple (ORelease c :: l) s)
+  | ORealTicker _ | OTcp _ _ | OBurst _ => s
+  end.
+
+Definition zseq (n : Z) : list Z := map Z.of_nat (seq 1 (Z.to_nat n)).
 
 (* ORealTicker k: connection 1 with heartbeat() ticking for real every few ms (virtual clock
    frozen): handshake, ack, k messages handled, one more message held in flight iff k is odd,
@@ -477,7 +673,7 @@ Definition exec_op1 (s : st) (o : op) : st :=
    session; then release, drain.  Same observables as placing the tick by hand: *)
 Definition rt_script (k : Z) : list op :=
   [OConnect 1; OSend 1 PHandshake; ORelease 1; OSend 1 PAck; ORelease 1]
-  ++ flat_map (fun m => [OSend 1 (PData m); ORelease 1]) (map Z.of_nat (seq 1 (Z.to_nat (Z.min k 20))))
+  ++ flat_map (fun m => [OSend 1 (PData m); ORelease 1]) (zseq (Z.min k 20))
   ++ (if Z.odd k then [OSend 1 (PData 100)] else [])
   ++ [ODrain; OTick 20000; OHeartbeat 1; ORelease 1; ODrain].
 
@@ -486,10 +682,10 @@ Definition rt_script (k : Z) : list op :=
    then end cause v: 0 client close, 1 illegal header, 2 truncated frame + close, 3 kick,
    4 undecodable message, 5 (instead of all that) a handshake with bad JSON. *)
 Definition tcp_script (v k : Z) : list op :=
-  if Z.eqb v 5 then [OConnect 1; OSend 1 PHandshakeBad; ORelease 1; ODrain]
+  if Z.eqb v 5 then [ODial 1; OSend 1 PHandshakeBad; ORelease 1; ODrain]
   else
-    [OConnect 1; OSend 1 PHandshake; ORelease 1; OSend 1 PAck; ORelease 1]
-    ++ flat_map (fun m => [OSend 1 (PData m); ORelease 1]) (map Z.of_nat (seq 1 (Z.to_nat (Z.min k 20))))
+    [ODial 1; OSend 1 PHandshake; ORelease 1; OSend 1 PAck; ORelease 1]
+    ++ flat_map (fun m => [OSend 1 (PData m); ORelease 1]) (zseq (Z.min k 20))
     ++ [ODrain]
     ++ (if Z.eqb v 0 then [OClientClose 1; ORelease 1]
         else if Z.eqb v 1 then [OSend 1 PBadType; ORelease 1]
@@ -498,10 +694,25 @@ Definition tcp_script (v k : Z) : list op :=
         else [OSend 1 PDataBad; ORelease 1])
     ++ [ODrain].
 
+(* OBurst n: the owning service is busy (its scheduler queue is full, so the OnSessionCreate
+   of the first accepted connection parks StartAcceptor's loop); n clients connect at once:
+   1 in the loop's hand, 99 in connChan, 1 in the accept loop's hand, the rest in the
+   listener's backlog.  Then the service catches up.  Every client then handshakes, acks and
+   sends one message carrying its own number; all is drained; every client closes; drained. *)
+Definition burst_script (n : Z) : list op :=
+  let cs := zseq (Z.min n 400) in
+  [OGate true] ++ map ODial cs ++ [OGate false; ODrain]
+  ++ flat_map (fun c => [OSend c PHandshake; ORelease c; OSend c PAck; ORelease c;
+                         OSend c (PData c); ORelease c]) cs
+  ++ [ODrain]
+  ++ flat_map (fun c => [OClientClose c; ORelease c]) cs
+  ++ [ODrain].
+
 Definition exec_op (s : st) (o : op) : st :=
   match o with
   | ORealTicker k => fold_left exec_op1 (rt_script k) s
   | OTcp v k => fold_left exec_op1 (tcp_script v k) s
+  | OBurst n => fold_left exec_op1 (burst_script n) s
   | _ => exec_op1 s o
   end.
 
@@ -510,24 +721,52 @@ Definition exec_ops (ops : list op) : st := fold_left exec_op ops init.
 (* the other linearisation of a race with the reader: closers first, release last *)
 Definition exec_op_alt (s : st) (o : op) : st :=
   match o with
-  | ORaceRel c l => settle (fold_left exec_simple (l ++ [ORelease c]) s)
+  | ORaceRel c l => settle_all (fold_left exec_simple (l ++ [ORelease c]) s)
   | _ => exec_op s o
   end.
 Definition exec_ops_alt (ops : list op) : st := fold_left exec_op_alt ops init.
 
 (* ---- observables ---- *)
 Inductive cfin := CFin (c ncb nclose npush nsent : Z) (eofseen : bool).
-Inductive obs := Obs (hlog : list hev) (fins : list cfin) (alive : Z) (hang leak : bool).
+(* blocked: goroutines parked in pushToSend at the end of the case *)
+Inductive obs := Obs (hlog : list hev) (fins : list cfin) (alive blocked : Z) (hang leak : bool).
 
 Definition alive_of (k : conn) : Z :=
   (match c_rp k with RDone => 0 | _ => 1 end)
   + (match c_wp k with WDone => 0 | _ => 1 end)
   + (match c_hp k with HDone => 0 | _ => 1 end).
 
+(* senders that cannot complete their send *)
+Definition blocked_of (k : conn) : Z :=
+  (if Z.ltb 0 (c_pp k) && negb (can_send k)
+      && match c_status k with SClosed => false | _ => true end then 1 else 0)
+  + (match c_hp k with HSend => if can_send k then 0 else 1 | _ => 0 end).
+
+Definition owner_blocked (s : st) : Z :=
+  match own s with
+  | [] => 0
+  | c :: _ => match target_of s c with
+              | Some c' => match aget c' (conns s) with
+                           | Some k => match push_k k with None => 1 | Some _ => 0 end
+                           | None => 0
+                           end
+              | None => 0
+              end
+  end.
+
+Definition expand (ops : list op) : list op :=
+  flat_map (fun o => match o with
+                     | ORealTicker k => rt_script k
+                     | OTcp v k => tcp_script v k
+                     | OBurst n => burst_script n
+                     | _ => [o]
+                     end) ops.
+
 Fixpoint order_of (ops : list op) (seen : list Z) : list Z :=
   match ops with
   | [] => []
-  | OConnect c :: r => if zmem c seen then order_of r seen else c :: order_of r (c :: seen)
+  | OConnect c :: r | ODial c :: r =>
+      if zmem c seen then order_of r seen else c :: order_of r (c :: seen)
   | _ :: r => order_of r seen
   end.
 
@@ -537,11 +776,10 @@ Definition fin_of (s : st) (c : Z) : cfin :=
   | None => CFin c 0 0 0 0 false
   end.
 
-Definition expand (ops : list op) : list op :=
-  flat_map (fun o => match o with ORealTicker k => rt_script k | OTcp v k => tcp_script v k | _ => [o] end) ops.
-
 Definition obs_of (ops : list op) (s : st) : obs :=
   Obs (f_hlog (fr s)) (map (fin_of s) (order_of (expand ops) []))
-      (fold_left (fun n ck => n + alive_of (snd ck)) (conns s) 0) false false.
+      (fold_left (fun n ck => n + alive_of (snd ck)) (conns s) 0)
+      (fold_left (fun n ck => n + blocked_of (snd ck)) (conns s) 0 + owner_blocked s)
+      false false.
 
 Definition model_obs (ops : list op) : obs := obs_of ops (exec_ops ops).
